@@ -249,6 +249,63 @@ func runC20(c *Ctx) {
 		}
 		c.check(okImp, "C20.recorder", cl, "SetImplicitSuccess() after ServeHTTP", serve, "200 is reported when the handler set no code")
 	}
+	// the finished record: logged with the recorder's code, under no condition
+	// other than the logger being enabled for that level
+	if lf := c.P.Func("netutil/httputil", "LogMiddleware.logFinished"); lf != nil {
+		n := 0
+		for _, ci := range core.AllCalls(lf) {
+			call, ok := ci.(*ssa.Call)
+			if !ok || core.CalleeName(&call.Call) != "(*log/slog.Logger).Log" {
+				continue
+			}
+			n++
+			okMsg := false
+			if msg, isK := core.ConstString(call.Call.Args[3]); isK && msg == "finished" {
+				okMsg = true
+			}
+			okCode := false
+			if len(call.Call.Args) > 4 {
+				if sl, isSl := call.Call.Args[4].(*ssa.Slice); isSl {
+					if al, isAl := sl.X.(*ssa.Alloc); isAl {
+						var vals []ssa.Value
+						for _, r := range core.Refs(al) {
+							if ia, ok := r.(*ssa.IndexAddr); ok {
+								for _, rr := range core.Refs(ia) {
+									if st, ok := rr.(*ssa.Store); ok {
+										vals = append(vals, core.Unwrap(st.Val))
+									}
+								}
+							}
+						}
+						for i, v := range vals {
+							if k, isK := core.ConstString(v); isK && k == "code" {
+								for j, w := range vals {
+									if j != i {
+										if name, base, isF := core.IsLoadOfField(w); isF && name == "code" && len(lf.Params) > 3 && base == ssa.Value(lf.Params[3]) {
+											okCode = true
+										}
+									}
+								}
+							}
+						}
+					}
+				}
+			}
+			okGuard := true
+			for _, g := range core.GuardsOf(call) {
+				cond, truth := core.StripNot(g.Cond, g.Truth)
+				gc, isC := cond.(*ssa.Call)
+				if !isC || core.CalleeName(&gc.Call) != "(*log/slog.Logger).Enabled" || !truth {
+					okGuard = false
+				}
+			}
+			c.check(okMsg && okCode && okGuard, "C20.recorder", lf, `l.Log(ctx, lvl, "finished", "code", rw.code, ...) whenever the level is enabled`, call,
+				"the finished record reports the code of this invocation's recorder")
+		}
+		if n == 0 {
+			c.check(false, "C20.recorder", lf, "the finished record is logged", nil, "logFinished does not log")
+		}
+	}
 	// recorder methods
 	if wh := c.P.Func("netutil/httputil", "CodeRecorderResponseWriter.WriteHeader"); wh != nil {
 		okRec, okFwd := false, false
@@ -436,6 +493,23 @@ func c20Wrap(c *Ctx, f *ssa.Function) {
 		}
 	}
 	okIdx := idx != nil && descendingOver(f, mws)
+	if okIdx {
+		// ... down to and including index 0: the loop continues exactly while i >= 0
+		hif, _ := head.Instrs[len(head.Instrs)-1].(*ssa.If)
+		okIdx = hif != nil
+		if hif != nil {
+			for _, iv := range []int64{-1, 0, 1, 2} {
+				v, ok := evalSmall(hif.Cond, map[ssa.Value]int64{idx: iv}, 0)
+				cont := v != 0
+				if !body[hif.Block().Succs[0]] {
+					cont = !cont
+				}
+				if !ok || cont != (iv >= 0) {
+					okIdx = false
+				}
+			}
+		}
+	}
 	c.check(okIdx, "C20.wrap.order", f, "for i := len(middlewares)-1; i >= 0; i--", nil, "the last middleware wraps first, so the first one is outermost and receives the request first")
 	okAcc := acc != nil
 	if acc != nil {
